@@ -39,14 +39,15 @@ def run_kind(arg):
             img = make_image(B, work, comp)
             for seed in seeds:
                 for order in (0, 1):
-                    args = [exe, kind, str(seed), str(order), img, work] + (["cc"] if seed % 3 == 0 else [])
+                    args = [exe, kind, str(seed), str(order), img, work] + (["cc"] if seed % 3 == 0 else ["failcopy"] if seed % 3 == 1 else [])
                     res = core.run_tool(args, timeout=120, binary="copy_hist",
                                         env={"ASAN_OPTIONS": core.ASAN_OPTS.replace("detect_leaks=0", "detect_leaks=1"), "LSAN_OPTIONS": "exitcode=99"})
                     oc.inc("histories")
                     out = res.out.decode("latin1")
-                    m = re.search(r"RESULT kind=\S+ ops=(\d+)", out)
+                    m = re.search(r"RESULT kind=\S+ ops=(\d+) viol=\d+ failed_copies=(\d+)", out)
                     if m:
                         oc.inc("operations", int(m.group(1)))
+                        oc.inc("failed_copies_survived", int(m.group(2)))
                     tag = "release-order-%s" % ("original-first" if order == 0 else "copy-first")
                     for v in re.finditer(r"^VIOL (\S+)", out, re.M):
                         oc.violate("copy:%s:%s" % (v.group(1), kind), "seed %d %s: %s" % (seed, tag, out[:300]))
@@ -73,7 +74,7 @@ def main(tier):
     rep = core.Report(PROP, tier, "exploration",
                       "for every copyable kind (5 compressors in both directions, fragment and id tables, metadata/directory/data/xattr readers, read-only file, xattr writer) three identically constructed "
                       "objects receive the same seeded pre-history; C = sqfs_copy(O1) (and a copy of the copy every third history); C then receives a seeded sequence while O1 receives an interleaved different one; "
-                      "C must answer like the twin O2 and O1 like the twin O3; then either O1 or C is released first (one process per order) and the survivor is used again; ASan + LeakSanitizer; "
+                      "in a third of the histories every allocation inside sqfs_copy(O1) is first made to fail once (the failed copy must leave O1 answering like O3); C must answer like the twin O2 and O1 like the twin O3; then either O1 or C is released first (one process per order) and the survivor is used again; ASan + LeakSanitizer; "
                       "distinct = (kind, image compressor)")
     build.build("asan")
     n = 30 if tier == "quick" else 900
@@ -86,5 +87,5 @@ def main(tier):
     for oc in core.pmap(run_kind, items):
         rep.add(oc)
     rep.evaluations = rep.counters.get("histories", 0)
-    rep.required_nonzero = ["histories", "operations"]
+    rep.required_nonzero = ["histories", "operations", "failed_copies_survived"]
     return rep.finish()
